@@ -1064,6 +1064,31 @@ class CatalogMachine(Machine):
             exp = [st.keys[r] for r in a.rows]
             if isinstance(out, Raised) or out != exp:
                 raise Violation('commute', 'iter', f'{out!r} vs {exp}')
+            if self.variant == 'source' and n >= 2:
+                # an extra property added to the catalog while a loop over
+                # it is under way: the children still to come carry it
+                st.extra_counter += 1
+                nm = f'xi{st.extra_counter}'
+                vals = np.arange(n, dtype=float) + 0.25
+                it = iter(cat)
+                first = call(next, it)
+                addr = call(cat.add_extra_property, nm, vals)
+                second = call(next, it)
+                if isinstance(addr, Raised) or isinstance(second, Raised) \
+                        or isinstance(first, Raised):
+                    raise Violation('raises', 'iter',
+                                    f'{first!r} {addr!r} {second!r}')
+                a.extras[nm] = vals
+                got = call(getattr, second, nm)
+                tbl = call(second.to_table, columns=['label', nm])
+                if isinstance(got, Raised) or isinstance(tbl, Raised) or \
+                        diff(got, vals[1], 1e-12, 0.0, check_dtype=False):
+                    raise Violation('independence', 'extra_value',
+                                    f'second child of a loop over rows '
+                                    f'{a.rows}: {nm} added to the catalog '
+                                    f'after the first child: {got!r} '
+                                    f'{tbl!r}')
+                st.stats.probe('extra_added_during_iteration')
             return
         if self.variant != 'source':
             raise Inapplicable(name)
